@@ -70,10 +70,20 @@ def check_graph(run, res, desc, rng):
         order.append(k)
         t = d[k]
         inputs = {x: done[x] for x in t.dependencies}
+        problem = None
+        # first with WRITEABLE private copies of the inputs: a task that writes "only when it may" must still leave them untouched
+        import copy as _copy
+        try:
+            priv = {x: _copy.deepcopy(v) for x, v in inputs.items()}
+            snap = {x: canon(v) for x, v in priv.items()}
+            t(priv)
+            if {x: canon(v) for x, v in priv.items()} != snap:
+                problem = "task modified one of its (writeable) inputs"
+        except Exception:  # noqa: BLE001  -- failures are diagnosed by the read-only run below
+            pass
         for v in inputs.values():
             freeze(v)
         before = {x: canon(v) for x, v in inputs.items()}
-        problem = None
         try:
             out1 = t(inputs)
             out2 = t(inputs)
@@ -228,6 +238,39 @@ def few_block_graphs(run, rng, n):
         run.sample({"few_block_case": desc})
 
 
+def scan_graphs(run, rng, n):
+    """grouped scans whose blocks carry already-sorted labels (resampling-like runs) and NaN holes inside groups: every task must leave
+    its input blocks untouched (writeable or not)"""
+    import dask.array as da
+    import numpy as np
+
+    import flox
+
+    desc = None
+    for _ in range(n):
+        m = rng.randint(6, 14)
+        runs = []
+        while len(runs) < m:
+            runs += [len(set(runs))] * rng.randint(1, 4)
+        labels = np.array(runs[:m]) if rng.random() < 0.7 else np.array([rng.randrange(3) for _ in range(m)])
+        vals = np.array([float(rng.randint(-3, 3)) for _ in range(m)])
+        for i in rng.sample(range(m), k=rng.randint(1, max(1, m // 3))):
+            vals[i] = np.nan
+        func = rng.choice(["ffill", "bfill", "nancumsum"])
+        chunks = tuple(G.random_composition(rng, m, 4))
+        desc = {"kind": "scan-sorted-blocks", "func": func, "vals": [I.fnum(x) for x in vals], "labels": labels.tolist(), "chunks": list(chunks)}
+        try:
+            with warnings.catch_warnings():
+                warnings.simplefilter("ignore")
+                res = flox.groupby_scan(da.from_array(vals, chunks=(chunks,)), labels, func=func)
+        except (ValueError, NotImplementedError):
+            continue
+        run.count(json.dumps(desc, sort_keys=True), len(chunks) > 1)
+        check_graph(run, res, desc, rng)
+    if desc:
+        run.sample({"scan_graph_case": desc})
+
+
 def user_aggregation_reuse(run, rng, n):
     """a user-supplied Aggregation object reused for a second, different call: the graph built by the FIRST call must still
     compute what it computed before (tasks are self-contained: they do not read state shared with the user's object / later calls)"""
@@ -320,6 +363,7 @@ def run(run: C.Run):
         run.extra["functions_that_may_store_into_their_parameters"] = offending_functions()
     graphs(run, rng, 2500 if thorough else 260)
     few_block_graphs(run, rng, 800 if thorough else 90)
+    scan_graphs(run, rng, 600 if thorough else 70)
     threaded_shared(run, rng, 60 if thorough else 8)
     user_aggregation_reuse(run, rng, 400 if thorough else 60)
     if any(not o[1] for o in run.obligations) and not run.violations:
